@@ -547,7 +547,13 @@ impl<'a> Ex<'a> {
             }
             None => {
                 if len == 0 {
-                    (None, None, cls)
+                    // an empty access touches no byte: no verdict next to an area (at its end, right below its start);
+                    // at an address that is nowhere near mapped memory it is still "an access that is unmapped"
+                    let near = self.m.areas.iter().any(|a| {
+                        let (s, e) = (a.start as u128, a.start as u128 + a.len as u128);
+                        (addr as u128 + 1 >= s) && (addr as u128) <= e
+                    });
+                    (if near || cls != "unmapped" { None } else { Some(false) }, None, cls)
                 } else if self.m.areas.iter().any(|a| intersects(addr, len, a.start, a.len) && a.prot & 3 != 3) {
                     // runs past the end of its area into (or out of) an area under a non-default mask: C09's verdict
                     (Some(false), None, "straddles_masked")
